@@ -175,6 +175,13 @@ def _idx_kind(eng, st, sl):
             return ('slice', lo, hi)
         raise OutOfSubset('slice with step')
     v = eng.ev(sl, st)
+    if isinstance(v, Mat) or (isinstance(v, Ref) and st.heap[v.oid].ndim == 2):
+        m = as_mat(eng, st, v)
+        if m.esort == BOOL:
+            return ('mask2', m)
+        raise OutOfSubset('2-D integer index array')
+    if isinstance(v, TupleV) and len(v) == 2 and all(isinstance(t, Ref) for t in v):
+        return ('pair', as_row(eng, st, v[0]), as_row(eng, st, v[1]), v)
     if isinstance(v, (Ref, Row)) or (isinstance(v, (tuple, list)) and not isinstance(v, Opaque)):
         if isinstance(v, (tuple, list)):
             return ('fancy', as_row(eng, st, v))
@@ -207,7 +214,7 @@ def getitem(eng, st, base, sl):
         r = as_row(eng, st, base)
         kind = _idx_kind(eng, st, sl)
         if kind[0] == 'int':
-            bounds(eng, st, kind[1], r.n, 'L%d:%s' % (line, ast.unparse(sl)[:20]))
+            bounds(eng, st, kind[1], r.n, 'read:%s' % ast.unparse(sl)[:24])
             return r.fn(kind[1])
         if kind[0] == 'all':
             return r
@@ -235,24 +242,27 @@ def getitem(eng, st, base, sl):
                     return alloc(st, 2, ixperm(M, kind[1].perm_term), (p.n, p.n), m.esort)
                 return Mat((p.n, q2.n), lambda x, y, m=m, p=p, q2=q2: m.fn(p.fn(x), q2.fn(y)), m.esort)
             if kind[0] == 'int':
-                bounds(eng, st, kind[1], m.shape[0], 'L%d:row' % line)
+                bounds(eng, st, kind[1], m.shape[0], 'readrow:%s' % ast.unparse(sl)[:24])
                 return Row(m.shape[1], lambda y, m=m, x=kind[1]: m.fn(x, y), m.esort)
             if kind[0] == 'fancy':
                 f = kind[1]
                 return Mat((f.n, m.shape[1]), lambda x, y, m=m, f=f: m.fn(f.fn(x), y), m.esort)
+            if kind[0] == 'pair':
+                f0, f1 = kind[1], kind[2]
+                return Row(f0.n, lambda q, m=m, f0=f0, f1=f1: m.fn(f0.fn(q), f1.fn(q)), m.esort)
             raise OutOfSubset('2-D single index %s' % kind[0])
         if len(elts) != 2:
             raise OutOfSubset('index arity')
         k0, k1 = _idx_kind(eng, st, elts[0]), _idx_kind(eng, st, elts[1])
         if k0[0] == 'int' and k1[0] == 'int':
-            bounds(eng, st, k0[1], m.shape[0], 'L%d:%s' % (line, ast.unparse(elts[0])[:12]))
-            bounds(eng, st, k1[1], m.shape[1], 'L%d:%s' % (line, ast.unparse(elts[1])[:12]))
+            bounds(eng, st, k0[1], m.shape[0], 'read0:%s' % ast.unparse(sl)[:24])
+            bounds(eng, st, k1[1], m.shape[1], 'read1:%s' % ast.unparse(sl)[:24])
             return m.fn(k0[1], k1[1])
         if k0[0] == 'int' and k1[0] == 'all':
-            bounds(eng, st, k0[1], m.shape[0], 'L%d:row' % line)
+            bounds(eng, st, k0[1], m.shape[0], 'readrow:%s' % ast.unparse(sl)[:24])
             return Row(m.shape[1], lambda y, m=m, x=k0[1]: m.fn(x, y), m.esort)
         if k0[0] == 'all' and k1[0] == 'int':
-            bounds(eng, st, k1[1], m.shape[1], 'L%d:col' % line)
+            bounds(eng, st, k1[1], m.shape[1], 'readcol:%s' % ast.unparse(sl)[:24])
             return Row(m.shape[0], lambda x, m=m, y=k1[1]: m.fn(x, y), m.esort)
         if k0[0] == 'fancy' and k1[0] == 'all':
             f = k0[1]
@@ -281,7 +291,7 @@ def setitem(eng, st, base, sl, val, node):
     if o.ndim == 1:
         kind = _idx_kind(eng, st, sl)
         if kind[0] == 'int':
-            bounds(eng, st, kind[1], o.shape[0], 'L%d:store' % line)
+            bounds(eng, st, kind[1], o.shape[0], 'store:%s' % ast.unparse(node)[:24])
             o.term = z3.Store(o.term, kind[1], to_z3(val, o.esort))
             return
         if kind[0] == 'mask':
@@ -307,19 +317,42 @@ def setitem(eng, st, base, sl, val, node):
     elts = sl.elts if isinstance(sl, ast.Tuple) else None
     if elts is None:
         kind = _idx_kind(eng, st, sl)
-        if kind[0] == 'mask':
-            raise OutOfSubset('row-mask store')
-        raise OutOfSubset('2-D store with one index')
+        x, y = z3.Int('x!s'), z3.Int('y!s')
+        old = o.term
+        inb = z3.And(x >= 0, x < to_z3(o.shape[0], INT), y >= 0, y < to_z3(o.shape[1], INT))
+        if kind[0] == 'mask2':
+            mk = kind[1]
+            if isinstance(val, (Ref, Row, Mat)):
+                raise OutOfSubset('2-D masked store of an array')
+            v = to_z3(val, o.esort)
+            o.term = z3.Lambda([x], z3.Lambda([y], z3.If(z3.And(inb, truth(mk.fn(x, y))), v, z3.Select(z3.Select(old, x), y))))
+            return
+        if kind[0] == 'pair':
+            i_ref, j_ref = kind[3]
+            mi, mj = st.heap[i_ref.oid].meta, st.heap[j_ref.oid].meta
+            wid = mi.get('where_idx')
+            if wid is None or mi.get('where_id') is None or mi.get('where_id') != mj.get('where_id'):
+                raise OutOfSubset('scatter store with index arrays that are not the result of one np.where')
+            cond = mi['where_cond']
+            if isinstance(val, (Ref, Row)):
+                r = as_row(eng, st, val)
+                vfn = lambda xx, yy: to_z3(r.fn(wid(xx, yy)), o.esort)
+            else:
+                vv = to_z3(val, o.esort)
+                vfn = lambda xx, yy: vv
+            o.term = z3.Lambda([x], z3.Lambda([y], z3.If(z3.And(inb, truth(cond(x, y))), vfn(x, y), z3.Select(z3.Select(old, x), y))))
+            return
+        raise OutOfSubset('2-D store with one index (%s)' % kind[0])
     k0, k1 = _idx_kind(eng, st, elts[0]), _idx_kind(eng, st, elts[1])
     x, y = z3.Int('x!s'), z3.Int('y!s')
     old = o.term
     if k0[0] == 'int' and k1[0] == 'int':
-        bounds(eng, st, k0[1], o.shape[0], 'L%d:store0' % line)
-        bounds(eng, st, k1[1], o.shape[1], 'L%d:store1' % line)
+        bounds(eng, st, k0[1], o.shape[0], 'store0:%s' % ast.unparse(node)[:24])
+        bounds(eng, st, k1[1], o.shape[1], 'store1:%s' % ast.unparse(node)[:24])
         o.term = store2(old, k0[1], k1[1], to_z3(val, o.esort))
         return
     if k0[0] == 'int' and k1[0] == 'all':
-        bounds(eng, st, k0[1], o.shape[0], 'L%d:storerow' % line)
+        bounds(eng, st, k0[1], o.shape[0], 'storerow:%s' % ast.unparse(node)[:24])
         if isinstance(val, (Ref, Row)):
             r = as_row(eng, st, val)
             o.term = z3.Store(old, k0[1], z3.Lambda([y], z3.If(z3.And(y >= 0, y < to_z3(o.shape[1], INT)), to_z3(r.fn(y), o.esort), z3.Select(z3.Select(old, k0[1]), y))))
@@ -328,7 +361,7 @@ def setitem(eng, st, base, sl, val, node):
             o.term = z3.Store(old, k0[1], z3.Lambda([y], z3.If(z3.And(y >= 0, y < to_z3(o.shape[1], INT)), v, z3.Select(z3.Select(old, k0[1]), y))))
         return
     if k0[0] == 'all' and k1[0] == 'int':
-        bounds(eng, st, k1[1], o.shape[1], 'L%d:storecol' % line)
+        bounds(eng, st, k1[1], o.shape[1], 'storecol:%s' % ast.unparse(node)[:24])
         c = k1[1]
         if isinstance(val, (Ref, Row)):
             r = as_row(eng, st, val)
@@ -396,8 +429,10 @@ def np_where(eng, st, args, kw, node):
         wx = widx(x, y)
         st.pc.append(z3.ForAll([x, y], z3.Implies(z3.And(x >= 0, x < n0, y >= 0, y < n1, truth(m.fn(x, y))),
                                                   z3.And(wx >= 0, wx < k, z3.Select(it, wx) == x, z3.Select(jt, wx) == y)), patterns=[widx(x, y)]))
-        ri = alloc(st, 1, it, (k,), INT, {'where_idx': widx})
-        rj = alloc(st, 1, jt, (k,), INT)
+        wid_ = next(core._fresh)
+        cond = (lambda xx, yy, m=m: m.fn(xx, yy))
+        ri = alloc(st, 1, it, (k,), INT, {'where_idx': widx, 'where_id': wid_, 'where_cond': cond})
+        rj = alloc(st, 1, jt, (k,), INT, {'where_id': wid_})
         return TupleV((ri, rj))
     r = as_row(eng, st, v)
     n0 = to_z3(r.n, INT)
@@ -631,6 +666,16 @@ def np_sum(eng, st, args, kw, node):
 
 def np_max(eng, st, args, kw, node):
     v = args[0]
+    if ndim_of(eng, st, v) == 2:
+        m = as_mat(eng, st, v)
+        mx = fresh('max', m.esort if m.esort != BOOL else INT)
+        x, y = z3.Ints('x!mx y!mx')
+        n0, n1 = to_z3(m.shape[0], INT), to_z3(m.shape[1], INT)
+        wx, wy = fresh('argmax_r', INT), fresh('argmax_c', INT)
+        st.pc.append(z3.ForAll([x, y], z3.Implies(z3.And(x >= 0, x < n0, y >= 0, y < n1), to_z3(m.fn(x, y)) <= mx)))
+        st.pc.append(z3.Implies(z3.And(n0 > 0, n1 > 0), z3.And(wx >= 0, wx < n0, wy >= 0, wy < n1, to_z3(m.fn(wx, wy)) == mx)))
+        st.ghost['max_witness'] = TupleV((wx, wy))
+        return mx
     r = as_row(eng, st, v)
     mx = fresh('max', r.esort if r.esort != BOOL else INT)
     q = z3.Int('q!mx')
